@@ -825,6 +825,8 @@ pub const NAMES: &[&str] = &["a", "b", "c", "x", "y", "foo", "bar_1", "_t", "tot
 pub const FIELD_NAMES: &[&str] = &["a", "b", "k", "name", "x1"];
 pub const KEY_POOL: &[&str] = &[
     "a", "b", "k", "name", "x1", "two words", "if", "1", "", "é", "a-b", "it's", "say \"hi\"", "café", "x²", "naïve_1", "_ü", "k٣", "1a", "a.b", "true", "sum", "Ａ", "a\\b", "output", "e\u{301}x",
+    // identifiers padded with blanks: distinct keys that only differ from plain names by layout
+    " a", "b ", "\tk", "name\n", " ",
 ];
 pub const STR_POOL: &[&str] = &["", "a", "crlf\r\nline", "cr\rbare", "hello world", "it's", "say \"hi\"", "// not a comment", "a\\b", "line1\nline2", "é😀", "[1, 2]", "x => y", " ", "see [\nbelow", "{\n  k: 1\n}", "f(\r\n1)", "日本語 // é", "Totals: \n  next", "tab\t\nx", "a \n\n b "];
 pub const BUILTINS_FOR_SYNTAX: &[&str] = &["sum", "map", "len", "max", "to_string", "range", "sort_by", "format"];
